@@ -878,14 +878,19 @@ func (s *clientSocket) _sendBuffers(volatile, forceSend bool, ackID *uint64, buf
 			}
 		}
 
+		// Packets go out at once only on a connected socket. While the CONNECT packet is
+		// unanswered the server has no socket for this namespace yet, and would close the
+		// connection upon an event for it. Nothing may overtake what is already parked
+		// either, so the decision is taken under the mutex of the send buffer.
+		s.sendBufferMu.Lock()
 		s.stateMu.RLock()
-		sendImmediately := s.state == clientSocketConnStateConnected || s.state == clientSocketConnStateConnectPending
+		sendImmediately := s.state == clientSocketConnStateConnected && len(s.sendBuffer) == 0
 		s.stateMu.RUnlock()
 		if sendImmediately || forceSend {
 			vhook.Event("csock.send", "s", s, "force", forceSend, "pk", packets)
+			s.sendBufferMu.Unlock()
 			s.manager.packet(packets...)
 		} else if !volatile {
-			s.sendBufferMu.Lock()
 			buffers := make([]sendBufferItem, len(packets))
 			for i := range buffers {
 				buffers[i] = sendBufferItem{
@@ -898,6 +903,7 @@ func (s *clientSocket) _sendBuffers(volatile, forceSend bool, ackID *uint64, buf
 			s.sendBufferMu.Unlock()
 		} else {
 			vhook.Event("csock.drop", "s", s, "pk", packets)
+			s.sendBufferMu.Unlock()
 			s.debug.Log("Packet is discarded")
 		}
 	}
